@@ -99,6 +99,11 @@ class ModuleAwareEvaluator(Evaluator):
                 if any(k.arg is None for k in e.keywords):
                     raise Unsupported("** in a call of a module-level function")
                 return self.invoke(fn.node, args, kwargs)
+        if isinstance(f, ast.Name) and isinstance(env.get(f.id), _TypeToken) and env[f.id].name in SCOPE_NAMES:
+            # `sub(self)` in Scope.inner: a scope class handed over as a value is instantiated with its parent
+            args = [self.expr(a, env) for a in e.args]
+            parent = args[0] if args and isinstance(args[0], Obj) else None
+            return make_scope(env[f.id].name, parent)
         return super().call(e, env)
 
     def _depth_ok(self) -> bool:
@@ -230,6 +235,8 @@ def evaluator_for(prog: Program, cls_name: str, sc: StubContext, max_steps: int 
                        "abs": abs, "ord": ord, "chr": chr, "next": next, "iter": lambda x: iter(ev.iterate(x)),
                        "filter": lambda f, x: [y for y in ev.iterate(x) if (f(y) if f is not None else y)],
                        "map": lambda f, *xs: [f(*a) for a in zip(*[ev.iterate(x) for x in xs])]})
+    import math as _math
+    ev.modules.setdefault("math", {}).update({k: getattr(_math, k) for k in ("floor", "ceil", "trunc", "sqrt", "log", "log2", "pow", "fabs", "inf", "pi")})
     ev.modules.setdefault("itertools", {}).update({
         "filterfalse": lambda f, x: iter([y for y in ev.iterate(x) if not (f(y) if f is not None else y)]),
         "chain": lambda *xs: [y for x in xs for y in ev.iterate(x)],
